@@ -292,6 +292,21 @@ class C07(c01.C01):
     for _ in range(400 if tier == 'quick' else 5000):
       yield c07lib.gen_case(rng)
 
+  def model_request_with_impl(self, case, impl_out):
+    if 'lib' in case and isinstance(impl_out, dict) and impl_out.get('clonev'):
+      cv = impl_out['clonev']
+      return {'op': 'clonev', 'deep': cv['deep'], 'v': cv['v']}
+    return self.model_request(case)
+
+  def compare(self, case, impl_out, model_out):
+    if 'lib' in case and isinstance(impl_out, dict) and impl_out.get('clonev'):
+      a, b = impl_out['clonev']['shared'], model_out.get('shared')
+      if a != b:
+        return ('clone of a value with containers inside tuples: which mutable objects of the clone are objects '
+                'of the original (pre-order) impl=%s model=%s' % (a, b))
+      return None
+    return super().compare(case, impl_out, model_out)
+
   def shrink_candidates(self, case):
     if 'lib' in case:
       s = case['lib']
